@@ -166,9 +166,9 @@ ReadLocs(F, p, names, fr) ==
       \* a byte count that runs past the end of the file frames nothing (the hit then shows no locations)
       stop == IF sz.v < 0 \/ p + sz.n + sz.v > Len(F) THEN p + sz.n ELSE p + sz.n + sz.v
       \* a hit has at most as many locations as occurrences (the writers' callers never give more, nor does the
-      \* harness); an impossible frequency frames nothing.  The bound keeps a wrong file from being parsed as tens of
+      \* harness), and at most 256.  The bound keeps a wrong file from being parsed as tens of
       \* thousands of "locations"
-      maxLocs == IF fr < 0 \/ fr > 4096 THEN 0 ELSE fr
+      maxLocs == IF fr < 0 THEN 0 ELSE IF fr > 256 THEN 256 ELSE fr      \* (the harness never gives a hit more than a few)
       RECURSIVE R(_, _, _)
       R(q, acc, n) == IF q >= stop \/ n = maxLocs THEN acc
                       ELSE LET h == ReadN(F, q, 5)
